@@ -273,6 +273,20 @@ def flatten_axis(kind, v, axis, const):
     return out
 
 
+def shift_spec(spec, dx):
+    """Translate every geometry column of a frame spec by (dx, dx): extents reaching below
+    the origin, or narrow relative to the magnitude of the coordinates (in place)."""
+    def sh(v):
+        if v is None:
+            return None
+        if isinstance(v, list) and v and isinstance(v[0], list):
+            return [sh(x) for x in v]
+        return [c + dx for c in v]
+    for c in spec["cols"]:
+        c["values"] = [sh(v) for v in c["values"]]
+    return spec
+
+
 def make_collinear(spec, rng):
     """Flatten one axis of the active geometry column of a frame spec (in place)."""
     c = col_of(spec, spec["active"])
